@@ -174,7 +174,10 @@ func (w *World) lockset(ls *lockSpec) *lockResult {
 				}
 			}
 		}
-		if !hasLockOp && !fresh && maxNeed != 0 {
+		// only a private helper can count on its callers holding the lock: an exported method is an entry point and has to
+		// take the lock itself (a method that locks some OTHER mutex has no lock operation on this one either)
+		exported := fn.Object() != nil && fn.Object().Exported() && fn.Parent() == nil
+		if !hasLockOp && !fresh && maxNeed != 0 && !exported {
 			needs[fn] = maxNeed
 		}
 	}
